@@ -558,7 +558,14 @@ func (fc *FuncCtx) evalQuant(env *Env, q EQuant) Val {
 	for _, p := range q.Pats {
 		var ts []string
 		for _, pe := range p {
-			ts = append(ts, fc.eval(e2, pe).T)
+			t := fc.eval(e2, pe).T
+			// has(m, k) is (and (not (= m 0)) (select ...)): only the select may be a pattern
+			if strings.HasPrefix(t, "(and (not (= ") {
+				if k := strings.Index(t, "(select (select "); k >= 0 {
+					t = t[k : len(t)-1]
+				}
+			}
+			ts = append(ts, t)
 		}
 		pats += " :pattern (" + strings.Join(ts, " ") + ")"
 	}
@@ -961,8 +968,33 @@ func (fc *FuncCtx) callPure(env *Env, pf *PureFunc, args []Val) Val {
 					}
 				}
 			}
+			if pf.Content != "" {
+				// a function of the contents of its single slice argument: the element heap is
+				// an argument, and equal contents (in any two heaps) give equal results
+				if len(pf.Params) != 1 || pf.Params[0].Type.Kind != "slice" {
+					specFail("ghost func %s: content functions take exactly one slice", pf.Name)
+				}
+				et := fc.resolveType(*pf.Params[0].Type.Elem, ppkg)
+				ek := fc.elemComp(et)
+				rec = []string{ek}
+				ps = append(ps, fc.compSort[ek])
+				fc.specHdr = append(fc.specHdr, fmt.Sprintf("(declare-fun %s (%s) %s)", name, strings.Join(ps, " "), rs))
+				es := fc.compSort[ek]
+				diff := name + "_diff"
+				fc.specHdr = append(fc.specHdr, fmt.Sprintf("(declare-fun %s (Slice %s Slice %s) Int)", diff, es, es))
+				a1 := fc.at(et, "E1", "a", "("+diff+" a E1 b E2)")
+				a2 := fc.at(et, "E2", "b", "("+diff+" a E1 b E2)")
+				fc.specHdr = append(fc.specHdr, fmt.Sprintf("(assert (forall ((a Slice) (E1 %s) (b Slice) (E2 %s)) (! (=> (and (= (s-len a) (s-len b)) (=> (and (<= 0 (%s a E1 b E2)) (< (%s a E1 b E2) (s-len a))) (= %s %s))) (= (%s a E1) (%s b E2))) :pattern ((%s a E1) (%s b E2)))))", es, es, diff, diff, a1, a2, name, name, name, name))
+				if strings.HasPrefix(pf.Content, "injective") {
+					aj1 := fc.at(et, "E1", "a", "j")
+					aj2 := fc.at(et, "E2", "b", "j")
+					fc.specHdr = append(fc.specHdr, fmt.Sprintf("(assert (forall ((a Slice) (E1 %s) (b Slice) (E2 %s)) (! (=> (= (%s a E1) (%s b E2)) (and (= (s-len a) (s-len b)) (forall ((j Int)) (! (=> (and (<= 0 j) (< j (s-len a))) (= %s %s)) :pattern (%s) :pattern (%s))))) :pattern ((%s a E1) (%s b E2)))))", es, es, name, name, aj1, aj2, aj1, aj2, name, name))
+					fc.noteAssumption(fmt.Sprintf("ghost function %s is an injective function of the slice contents (%s:%d)", pf.Name, relFile(pf.File), pf.Line))
+				}
+			} else {
+				fc.specHdr = append(fc.specHdr, fmt.Sprintf("(declare-fun %s (%s) %s)", name, strings.Join(ps, " "), rs))
+			}
 			fc.opaqueComps[name] = rec
-			fc.specHdr = append(fc.specHdr, fmt.Sprintf("(declare-fun %s (%s) %s)", name, strings.Join(ps, " "), rs))
 			fc.emitAxiomsMentioning(pf.Name)
 		}
 	}
